@@ -197,7 +197,7 @@ func c12Shapes() []*spec.Spec {
 func c12(args []string) {
 	c := chk.New("C12", "exploration", args)
 	c.Build(true)
-	c.Rule("the subject built with the Go race detector (-race, GORACE=halt_on_error=0 log_path=...) runs generated graphs biased to shared state (fan-out of one out-port to several consumers, MapToTags beside sibling consumers, multi-output tasks feeding different consumers, fan-in, multi-core tasks, parameter feeders and combinators, Go functions) and directed shapes (tagging + reading siblings + GroupByTag concatenation, simultaneous closing of 6 upstreams, RunTo with literal parameter feeders, components with internal goroutines, a streaming pair, 16 streamed items from a producer with additional regular outputs, one out-port fanned out to Go functions that Read() the same items, the sink draining files and parameters at once, two joined in-ports), each under several yield-point seeds and GOMAXPROCS values, every second run with passive hooks (an active hook takes the monitor mutex, which is a synchronisation the race detector sees and which would order accesses the plain library leaves unordered); oracle: every 'WARNING: DATA RACE' block with a scipipe frame is a violation, de-duplicated by the pair of innermost scipipe frames; blocks without any scipipe frame are harness bugs (check reported as broken). distinct_nontrivial = distinct interleaving signatures observed under the race detector")
+	c.Rule("the subject built with the Go race detector (-race, GORACE=halt_on_error=0 log_path=...) runs generated graphs biased to shared state (fan-out of one out-port to several consumers, MapToTags beside sibling consumers, multi-output tasks feeding different consumers, fan-in, multi-core tasks, parameter feeders and combinators, Go functions) and directed shapes (tagging + reading siblings + GroupByTag concatenation, simultaneous closing of 6 upstreams, RunTo with literal parameter feeders, components with internal goroutines, a streaming pair, 16 streamed items from a producer with additional regular outputs, one out-port fanned out to Go functions that Read() the same items, the sink draining files and parameters at once, two joined in-ports), each under several yield-point seeds and GOMAXPROCS values, every second run with passive hooks, every fourth also with the library's logging reduced to errors (an active hook takes the monitor mutex, which is a synchronisation the race detector sees and which would order accesses the plain library leaves unordered); oracle: every 'WARNING: DATA RACE' block with a scipipe frame is a violation, de-duplicated by the pair of innermost scipipe frames; blocks without any scipipe frame are harness bugs (check reported as broken). distinct_nontrivial = distinct interleaving signatures observed under the race detector")
 	c.Assume("the race detector reports happens-before violations on executed paths only")
 	rng := c.Rand("c12")
 	type job struct {
@@ -217,12 +217,12 @@ func c12(args []string) {
 		for k := 0; k < reps; k++ {
 			// every second run with passive hooks: the monitor mutex of an active hook is a synchronisation the
 			// race detector sees, and would order accesses that the plain library leaves unordered
-			jobs = append(jobs, &job{s, Cfg{Buf: b, Procs: []int{2, 4, 8}[rng.Intn(3)], Sched: fmt.Sprintf("%d,400,800", rng.Intn(1<<30)), Race: true, NoHooks: k%2 == 1}, "generated"})
+			jobs = append(jobs, &job{s, Cfg{Buf: b, Procs: []int{2, 4, 8}[rng.Intn(3)], Sched: fmt.Sprintf("%d,400,800", rng.Intn(1<<30)), Race: true, NoHooks: k%2 == 1, Quiet: k%4 == 3}, "generated"})
 		}
 	}
 	for _, s := range c12Shapes() {
 		for k := 0; k < c.Pick(4, 12); k++ {
-			jobs = append(jobs, &job{s, Cfg{Buf: []int{1, 3, 128}[k%3], Procs: []int{2, 4, 8}[k%3], Sched: fmt.Sprintf("%d,400,800", rng.Intn(1<<30)), Race: true, NoHooks: k%2 == 1}, "shape:" + s.Name})
+			jobs = append(jobs, &job{s, Cfg{Buf: []int{1, 3, 128}[k%3], Procs: []int{2, 4, 8}[k%3], Sched: fmt.Sprintf("%d,400,800", rng.Intn(1<<30)), Race: true, NoHooks: k%2 == 1, Quiet: k%4 == 3}, "shape:" + s.Name})
 		}
 	}
 	type seen struct {
